@@ -160,6 +160,17 @@ def generate(repo):
 
     item("tt_min_dim", 256, lambda: int_expr(find_const(emb, "TT_MIN_DIMENSION")))
 
+    def load_unbounded():
+        # the loader must accept whatever the saver can write: the compressed payload goes through the
+        # streaming decoder as a whole, with no size / ratio cap in front of or behind it
+        _, body = find_fn(snap, "load_v3")
+        if not re.search(r"zstd::decode_all\(\s*&compressed\[\.\.\]\s*\)", body):
+            return False
+        if re.search(r"\.take\(|bulk::decompress|with_capacity|RATIO|BUDGET|EXPANSION|LIMIT|MAX_", body):
+            return False
+        return True
+    item("load_decompress_unbounded", True, load_unbounded)
+
     def stale_vec():
         router = strip_comments(read(repo, "tensor_store/src/slab_router.rs"))
         _, body = find_fn(router, "put", after=r"impl\s+SlabRouter\b")
@@ -266,6 +277,8 @@ def generate(repo):
     text += "(* file-system steps in source order: 0 create temp, 1 write temp, 2 fsync temp, 3 unlink target, 4 rename temp -> target, 5 other *)\n"
     text += "Definition gen_save_steps_v3 : list N := %s.\n" % nlist(out["save_steps_v3"])
     text += "Definition gen_save_steps_quant : list N := %s.\n" % nlist(out["save_steps_quant"])
+    text += "(* load_v3 inflates the payload with the unbounded streaming decoder (no size or ratio cap): what save writes, load accepts *)\n"
+    text += "Definition gen_load_decompress_unbounded : bool := %s.\n" % ("true" if out["load_decompress_unbounded"] else "false")
     text += "(* tensor_store/src/embedding_slab.rs CompressedEmbedding::from_dense *)\n"
     text += "Definition gen_tt_min_dim : N := %d.\n" % out["tt_min_dim"]
     text += "(* slab_router.rs put, embedding arm: a value without a slab-sized _embedding vector drops the key's old slab vector *)\n"
